@@ -32,6 +32,9 @@ CLAIMS = {
 
  "C10": ("Structural necessary conditions of consistent HLS output: no alias of a pooled buffer escapes (playlist bytes, in-memory segment readers), the segment list is accessed only under its lock, segment cuts are dominated by the key-frame test (one recorded known finding: audio-triggered cut), one window constant for readiness and retention, playlist header fields derive from the listed segments, a closed segment is published or deleted-with-number-reuse. Does not decide sequence arithmetic, durations or byte identity.",
          "pooled-alias escape analysis + lockset + SSA path-state + constant evaluation", "DESIGN.md §3 C10"),
+
+ "C11": ("Structural necessary conditions of authorisation on every entry point: sinks dominated by the right permission check on every RTSP/HTTP/API chain (who-may-reach over the call graph + path-sensitive guard facts), grant-without-check paths decided by configuration only, path checked = path served, WSP data-channel join compared with the control session, rights recompiled from scratch, tokens from crypto/rand, access vs refresh token guards, per-request user. Does not decide digest arithmetic, expiry timing or the matcher language.",
+         "call-graph who-may-reach + path-sensitive guard-fact analysis + SSA dependence", "DESIGN.md §3 C11"),
 }
 NA = {
  "C16": "pure input/output language equivalence of the pattern matcher over all pattern/path pairs: truth lives in string values, no structural clause implies it; deciding it needs exhaustive evaluation (execution), a different technique family",
